@@ -51,13 +51,15 @@ Theorem C10_holds_b_sound :
 Proof. exact holds_b_spec. Qed.
 Print Assumptions C10_holds_b_sound.
 
-(* recorded finding: the real counted set's answers on this history violate the property *)
-Theorem C10_counted_extend_trace_refuted :
-  exists ops impl, ops = counted_extend_ops /\ impl = counted_extend_impl /\
-    C10_holds_b KCounted ops impl = false /\
-    answers_eqb impl (model_run KCounted 2 ops) = false.
-Proof. exact counted_extend_trace_refuted. Qed.
-Print Assumptions C10_counted_extend_trace_refuted.
+(* FORMER FINDING (fixed in /repo by 38aff06f64c): VariadicCountedHashSet::extend onto a non-empty
+   table lost the old rows.  Former theorem C10_counted_extend_trace_refuted: the recorded answers
+   [true; true; true; unit; false] of the real code on PVC.counted_extend_ops fail C10_holds_b.
+   The history is corpus/C10/counted_extend.json (run first on every check); expected answers: *)
+Example C10_former_witness :
+  model_run KCounted 2 counted_extend_ops = [ABool true; ABool true; ABool true; AUnit; ABool true] /\
+  C10_holds_b KCounted counted_extend_ops [ABool true; ABool true; ABool true; AUnit; ABool true] = true /\
+  C10_holds_b KCounted counted_extend_ops [ABool true; ABool true; ABool true; AUnit; ABool false] = false.
+Proof. exact counted_extend_expected. Qed.
 
 (* ---- non-vacuity: the hypotheses are satisfiable by non-trivial values *)
 Example C10_ex_Rset : Rset [[1; 2]; [3; 4]]%N [[1; 2]; [3; 4]; [1; 2]]%N.
